@@ -269,7 +269,17 @@ def floats_in(e, acc):
             floats_in(x, acc)
 
 
-def coq_header(encs):
+def coq_header(encs, with_model=True):
+    """with_model=False: only the spec-level definitions (used when the translator failed: GenStructCmp.v is stale)."""
+    if not with_model:
+        lines = ["From Coq Require Import ZArith NArith List Bool.", "From PL.C15 Require Import ModelStd.", "Import ListNotations."]
+        for i, e in enumerate(encs):
+            lines.append("Definition p%d : term := %s." % (i, coq_term(e)))
+        lines.append("Definition pool : list term := [%s]." % "; ".join("p%d" % i for i in range(len(encs))))
+        lines.append("Fixpoint zs_eqb (l m : list Z) : bool := match l, m with [] , [] => true | x :: l', y :: m' => Z.eqb x y && zs_eqb l' m' | _, _ => false end.")
+        lines.append("Definition row_spec (a : term) (exp : list Z) : bool := zs_eqb (map (fun b => cmpZ (plg_cmp (denote a) (denote b))) pool) exp.")
+        lines.append("Definition sort_spec_ok (xs exp : list term) : bool := list_eqb (plg_sort (map denote xs)) exp.")
+        return "\n".join(lines) + "\n"
     fl = {}
     for e in encs:
         floats_in(e, fl)
@@ -472,22 +482,40 @@ def run(ctx):
         "ProbLog's documented order (String < Atom), recorded as differing from SWI-7, not an obligation (DESIGN 6.4)",
         "variables are outside the tie (ground terms only); the theorems cover engine-int variables",
     ]
-    # ---- 1. translator
-    generate(ctx)
-    # ---- 2. proofs
-    ctx.prove("C15/Props.v")
-    ctx.log("Props.v: %d/%d" % (ctx.cov["discharged"], ctx.cov["obligations"]))
-    # Findings.v (witness 10 vs 9 on the generated model, built with make, so cached while the source is unchanged)
-    opt, okf = {}, {}
-    for rel in ("C15/Findings.v", "C15/FindingsQuoted.v"):
-        okf[rel], tail = optional_build(ctx, rel)
-        opt[rel] = "compiles (defect reproduced on the generated model)" if okf[rel] else "does not compile (known finding no longer reproduces)"
-    ctx.cov["findings_files"] = opt
-    ctx.cov["model_number_fallthrough_present"] = okf["C15/Findings.v"]
-    if not okf["C15/Findings.v"]:
-        # the number fall-through is gone from the generated model: the full-strength theorems are obligations now
-        ctx.prove("C15/PropsFixed.v")
-        ctx.log("PropsFixed.v: obligations now %d/%d" % (ctx.cov["discharged"], ctx.cov["obligations"]))
+    # ---- 1. translator (fail-closed).  A source the translator does not understand is a broken obligation, NOT the end of
+    # the check: the judges below run on the real engine in any case and look for the concrete failing input.
+    model_ok = True
+    try:
+        generate(ctx)
+    except Exception as e:  # noqa  (TranslateError, SyntaxError, OSError ...)
+        model_ok = False
+        ctx.broken.append("translator:gen/c15_structcmp.py cannot translate engine_builtin.py (%s: %s)" % (type(e).__name__, str(e)[:300]))
+        ctx.notes.append("translator failed: %s: %s" % (type(e).__name__, e))
+        ctx.log("translator failed: %s" % str(e)[:200])
+    # ---- 2. proofs (only against a freshly generated model; a stale GenStructCmp.v proves nothing about this source)
+    if model_ok:
+        try:
+            ctx.prove("C15/Props.v")
+        except Exception as e:  # noqa
+            ctx.broken.append("proof-cone:C15/Props.v (%s: %s)" % (type(e).__name__, str(e)[:300]))
+        ctx.log("Props.v: %d/%d" % (ctx.cov["discharged"], ctx.cov["obligations"]))
+    else:
+        try:
+            with open(os.path.join(vf.THEORIES, "C15", "Props.v")) as f:
+                import re
+                ctx.cov["obligations"] += len(re.findall(r"^\s*(?:Theorem|Corollary)\s", vf.strip_coq_comments(f.read()), re.M))
+        except OSError:
+            pass
+        ok0, _ = optional_build(ctx, "C15/ModelStd.v")      # the spec-level oracle is still needed by the judge's cross-check
+    # Findings.v: witnesses (vm_compute on the generated model) of the KNOWN findings that remain -- quoted atoms, '-'(N).
+    # Outside the cone of Props.v; when it stops compiling the findings are gone (recorded, never a violation).
+    if model_ok:
+        try:
+            okf, tail = optional_build(ctx, "C15/Findings.v")
+            ctx.cov["findings_files"] = {"C15/Findings.v": "compiles (known findings reproduced on the generated model)" if okf
+                                         else "does not compile (known finding no longer reproduces)"}
+        except Exception as e:  # noqa
+            ctx.cov["findings_files"] = {"C15/Findings.v": "not built: %s" % str(e)[:200]}
 
     if ctx.replay:
         replay(ctx, ctx.replay.get("replay", ctx.replay))
@@ -581,10 +609,11 @@ def run(ctx):
 
     # ---- 5. the generated model on the same pairs, and the Python reference against the Coq order
     # (all Coq-side cases are collected and evaluated in one go at the end: coqc start-up dominates small runs)
-    hdr = coq_header(encs)
+    hdr = coq_header(encs, model_ok)
     coq_cases = []   # (kind, meta, bool term)
     for i in range(n):
-        coq_cases.append(("rowimpl", i, "row_impl p%d %s" % (i, zlist([x if isinstance(x, int) else 77 for x in M[i]]))))
+        if model_ok:
+            coq_cases.append(("rowimpl", i, "row_impl p%d %s" % (i, zlist([x if isinstance(x, int) else 77 for x in M[i]]))))
         if ctx.tier == "quick" or i % 3 == 0:     # harness reference vs Coq definition: every row in quick, every third in thorough
             coq_cases.append(("rowspec", i, "row_spec p%d %s" % (i, zlist(E[i]))))
 
@@ -635,7 +664,7 @@ def run(ctx):
     sel = list(range(len(allpairs)))
     if len(sel) > ctx.n(6000, 30000):
         sel = sorted(ctx.rng.sample(sel, ctx.n(6000, 30000)))
-    for idx in sel:
+    for idx in (sel if model_ok else []):
         (i, j), ob = allpairs[idx], eng_obs[idx]
         if ob[0] == "EXC" or ob[0] is None or ob[0] == "MULTI":
             coq_cases.append(("eng", idx, "false"))
@@ -694,7 +723,8 @@ def run(ctx):
                         ks.add(classify(encs[i], encs[j], S[i][j]) if isinstance(S[i][j], int) else None)
             failing.setdefault(frozenset(ks), []).append(xs)
         cin = "; ".join(pref(e) for e in inp)
-        coq_cases.append(("sortm", li, "sort_ok [%s] [%s]" % (cin, "; ".join(pref(e) for e in ob))))
+        if model_ok:
+            coq_cases.append(("sortm", li, "sort_ok [%s] [%s]" % (cin, "; ".join(pref(e) for e in ob))))
         if ctx.tier == "quick" or li % 3 == 0:
             coq_cases.append(("sorts", li, "sort_spec_ok [%s] [%s]" % (cin, "; ".join(pref(e) for e in exp))))
     ctx.cov["sort_lists"] = len(lists)
@@ -766,7 +796,7 @@ def run(ctx):
         for li in badk.get("sorts", [])[:3]:
             ctx.broken.append("correspondence:harness reference sort differs from ModelStd.plg_sort on [%s]" % ",".join(lists[li]))
         ctx.log("coq side: %d cases, %d bad" % (len(terms), len(bad)))
-    if ctx.tier == "thorough":
+    if ctx.tier == "thorough" and model_ok:
         ctx.coqchk("PL.C15.Props")
 
 
